@@ -131,17 +131,23 @@ Trace<S> bicgstab(const Sys<S> &s, const Vec<S> &x0, int K) {
     return t;
 }
 
+// widest scalar type of the same kind (the small dense solves are always done in long double, also for the double twin,
+// whose purpose is to expose the rounding sensitivity of the vector recurrences)
+template <class S> struct wide_of { typedef long double type; };
+template <class T> struct wide_of<std::complex<T>> { typedef std::complex<long double> type; };
+
 // small dense least squares  min || beta e1 - H(0..j+1, 0..j) y ||  by Householder QR
 template <class S>
 Vec<S> hess_ls(const std::vector<Vec<S>> &Hcols, typename real_of<S>::type beta, int j) {
-    typedef Eigen::Matrix<S, Eigen::Dynamic, Eigen::Dynamic> EM;
-    typedef Eigen::Matrix<S, Eigen::Dynamic, 1> EV;
+    typedef typename wide_of<S>::type W;
+    typedef Eigen::Matrix<W, Eigen::Dynamic, Eigen::Dynamic> EM;
+    typedef Eigen::Matrix<W, Eigen::Dynamic, 1> EV;
     EM H = EM::Zero(j + 2, j + 1);
-    for (int c = 0; c <= j; ++c) for (int r = 0; r <= c + 1; ++r) H(r, c) = Hcols[c][r];
-    EV g = EV::Zero(j + 2); g(0) = S(beta);
+    for (int c = 0; c <= j; ++c) for (int r = 0; r <= c + 1; ++r) H(r, c) = W(Hcols[c][r]);
+    EV g = EV::Zero(j + 2); g(0) = W(static_cast<long double>(beta));
     EV y = H.householderQr().solve(g);
     Vec<S> out(j + 1);
-    for (int i = 0; i <= j; ++i) out[i] = y(i);
+    for (int i = 0; i <= j; ++i) out[i] = S(y(i));
     return out;
 }
 
@@ -238,7 +244,7 @@ typename real_of<S>::type gmres_lsmin(const Sys<S> &s, const Vec<S> &x0, int k) 
     EM W(n, q); EV g(n);
     for (int j = 0; j < q; ++j) { Vec<S> w = s.B(V[j]); for (int i = 0; i < n; ++i) W(i, j) = w[i]; }
     for (int i = 0; i < n; ++i) g(i) = r0[i];
-    EV y = W.colPivHouseholderQr().solve(g);
+    EV y = W.householderQr().solve(g);
     EV e = g - W * y;
     typename real_of<S>::type sum = 0;
     for (int i = 0; i < n; ++i) sum += abs2(S(e(i)));
@@ -269,7 +275,7 @@ typename real_of<S>::type cg_min_aerr(const Mat<S> &A, const Mat<S> *M, const Ve
         for (int i = 0; i < q; ++i) G(i, j) = dot(V[i], av);
         rhs(j) = dot(V[j], r0);          // V^H A e0 = V^H r0
     }
-    EV y = G.colPivHouseholderQr().solve(rhs);
+    EV y = G.householderQr().solve(rhs);
     Vec<S> e = e0;
     for (int j = 0; j < q; ++j) axpy(-S(y(j)), V[j], e);
     return anorm(A, e);
